@@ -324,6 +324,9 @@ func genPath(t *rapid.T, ms []mapping) string {
 	case k == 5:
 		return rapid.SampledFrom([]string{"", ".", "./", "..", "../"}).Draw(t, "relbase") + strings.TrimPrefix(sub, "/") + "/" + file
 	case k == 6:
+		if rapid.IntRange(0, 2).Draw(t, "bareVolume") == 0 { // nothing (or only a file) after the volume name
+			return rapid.SampledFrom([]string{"/Volumes/", "/Volumes", "/Volumes/vWork", "/Volumes/a.go", "/Volumes//", "/Volumes/v/"}).Draw(t, "volumeShape")
+		}
 		return "/Volumes/" + genComp().Draw(t, "vol") + sub + "/" + file
 	case k == 7 && len(bases) > 0: // textual look-alike of a protected prefix
 		return strings.TrimRight(rapid.SampledFrom(bases).Draw(t, "base"), "/") + genComp().Draw(t, "suffix") + sub + "/" + file
@@ -479,6 +482,16 @@ func TestSafety(t *testing.T) {
 		}
 		vlib.SetFlagsVia(rapid.SampledFrom([]int{0, 0, 1, 2, 3, 4}).Draw(t, "flagsHow"), flags, slog.Lprivacypath|slog.Lprivacypathregexp|slog.Lcaller)
 		h := strings.Join(hist, "; ") + fmt.Sprintf(" flags{privacypath=%v regexp=%v}", flagPath, flagRe)
+		if rapid.IntRange(0, 4).Draw(t, "chdir") == 0 {
+			// the process changes its working directory after start-up: a relative form must be relative to where
+			// the process is NOW (the registered start-up directory mapping stays what it is)
+			to := rapid.SampledFrom([]string{filepath.Join(cwdDir, "..", "vlib"), filepath.Dir(cwdDir), "/", os.TempDir()}).Draw(t, "chdirTo")
+			if err := os.Chdir(to); err == nil {
+				defer func() { _ = os.Chdir(cwdDir) }()
+				h += fmt.Sprintf(" after os.Chdir(%q)", to)
+				v.labels["working-directory-changed"] = true
+			}
+		}
 		npaths := rapid.IntRange(1, 4).Draw(t, "npaths")
 		var paths []string
 		for i := 0; i < npaths; i++ {
@@ -543,8 +556,24 @@ func TestCallerField(t *testing.T) {
 		}
 		// one or two records from the very same call statement, the privacy flag drawn anew for each (a caller
 		// resolved under the other flag value must not be reused)
-		rounds := rapid.SampledFrom([]int{1, 2, 2}).Draw(t, "recordsFromTheSameCallSite")
+		rounds := rapid.SampledFrom([]int{1, 2, 2, 3}).Draw(t, "recordsFromTheSameCallSite")
+		// regexp mappings that match this very source file may be added and removed between the records
+		var cfRe, cfRepl []string
+		flagRe := rapid.Bool().Draw(t, "privacyRegexpFlag")
 		for round := 0; round < rounds; round++ {
+			switch rapid.IntRange(0, 3).Draw(t, "regexpOp") {
+			case 0:
+				ex := rapid.SampledFrom([]string{`/harness/`, `c18_test`, `[0-9]+`, `^/verif/`}).Draw(t, "regexp")
+				slog.AddKnownPathRegexpMapping(ex, "~R")
+				cfRe, cfRepl = append(cfRe, ex), append(cfRepl, "~R")
+				hist = append(hist, fmt.Sprintf("AddKnownPathRegexpMapping(%q,\"~R\")", ex))
+			case 1:
+				if len(cfRe) > 0 {
+					slog.RemoveKnownPathRegexpMapping(cfRe[0])
+					hist = append(hist, fmt.Sprintf("RemoveKnownPathRegexpMapping(%q)", cfRe[0]))
+					cfRe, cfRepl = cfRe[1:], cfRepl[1:]
+				}
+			}
 			flagPath := rapid.IntRange(0, 5).Draw(t, "privacyPathFlag") != 0
 			if round == 0 && rounds == 2 {
 				flagPath = rapid.Bool().Draw(t, "firstRecordPrivacyPathFlag")
@@ -552,6 +581,9 @@ func TestCallerField(t *testing.T) {
 			flags := (vlib.BaseFlags | slog.Lcaller) &^ (slog.Lprivacypath | slog.Lprivacypathregexp)
 			if flagPath {
 				flags |= slog.Lprivacypath
+			}
+			if flagRe {
+				flags |= slog.Lprivacypathregexp
 			}
 			slog.SetFlags(flags)
 			format := rapid.SampledFrom([]string{"json", "logfmt", "color"}).Draw(t, "format")
@@ -597,7 +629,7 @@ func TestCallerField(t *testing.T) {
 					}
 				}
 			}
-			h := strings.Join(hist, "; ") + fmt.Sprintf(" flags{privacypath=%v} format=%s record=%d/%d", flagPath, format, round+1, rounds)
+			h := strings.Join(hist, "; ") + fmt.Sprintf(" flags{privacypath=%v regexp=%v} format=%s record=%d/%d", flagPath, flagRe, format, round+1, rounds)
 			if file == "" {
 				t.Fatalf("C18 after [%s]: no caller file found in record %q", h, p)
 			}
@@ -612,6 +644,23 @@ func TestCallerField(t *testing.T) {
 			if !flagPath || applicable == 0 {
 				ok = file == thisFile || equivalentRel(file, thisFile)
 			}
+			// registered regexp mappings that match this file (both flags on)
+			reExp, reMatched := thisFile, false
+			if flagPath && flagRe {
+				for i, ex := range cfRe {
+					if re := regexp.MustCompile(ex); re.MatchString(thisFile) {
+						reExp, reMatched = re.ReplaceAllString(reExp, cfRepl[i]), true
+					}
+				}
+			}
+			if reMatched {
+				if applicable == 0 {
+					ok = file == reExp // no prefix mapping applies: exactly the regexp rewrites, in registration order
+					set = map[string]bool{reExp: true}
+				} else {
+					ok = true // prefix and regexp mappings both apply: their interplay is not asserted
+				}
+			}
 			if !ok {
 				var want []string
 				for s := range set {
@@ -621,7 +670,7 @@ func TestCallerField(t *testing.T) {
 				vlib.Discrep(t, "C18/caller-field", "C18 after [%s]: the record's caller file is %q; Safety policy allows %q (flag on=%v) for %q", h, file, want, flagPath, thisFile)
 			}
 			// and Safety itself must agree with one of the allowed forms
-			if flagPath && applicable > 0 {
+			if flagPath && applicable > 0 && !reMatched {
 				if s := slog.Safety(thisFile); !set[s] {
 					vlib.Discrep(t, "C18/inside", "C18 after [%s]: Safety(%q) = %q not in %v", h, thisFile, s, set)
 				}
